@@ -124,6 +124,43 @@ class StandardRequestHandler(ControlRequestHandler):
             skiplisted = functools.reduce(operator.__or__, (f(setup) for f in self._skiplist), Const(0))
             m.d.comb += interface.claim.eq(~skiplisted)
 
+            # Keep track of whether we've sent a GET_DESCRIPTOR packet we're expecting an ACK to.
+            expecting_ack = Signal()
+
+            # [USB2.0: 8.5.3] A new SETUP packet always starts a fresh control transfer, whatever became of
+            # the previous one. Called last in every state, so that it overrides the state's own transitions.
+            def handle_new_setup():
+                with m.If(setup.received):
+                    m.d.usb += [
+                        get_descriptor_handler.start_position  .eq(0),
+                        self.interface.tx_data_pid             .eq(1),
+                        expecting_ack                          .eq(0),
+                    ]
+
+                    with m.If(~skiplisted):
+
+                        # Select which standard packet we're going to handler.
+                        with m.Switch(setup.request):
+
+                            with m.Case(USBStandardRequests.GET_STATUS):
+                                m.next = 'GET_STATUS'
+                            with m.Case(USBStandardRequests.CLEAR_FEATURE):
+                                m.next = 'CLEAR_FEATURE'
+                            with m.Case(USBStandardRequests.SET_ADDRESS):
+                                m.next = 'SET_ADDRESS'
+                            with m.Case(USBStandardRequests.SET_CONFIGURATION):
+                                m.next = 'SET_CONFIGURATION'
+                            with m.Case(USBStandardRequests.GET_DESCRIPTOR):
+                                m.next = 'GET_DESCRIPTOR'
+                            with m.Case(USBStandardRequests.GET_CONFIGURATION):
+                                m.next = 'GET_CONFIGURATION'
+                            with m.Default():
+                                m.next = 'UNHANDLED'
+
+                    with m.Else():
+                        m.next = 'IDLE'
+
+
             with m.FSM(domain="usb"):
 
                 # IDLE -- not handling any active request
@@ -138,27 +175,7 @@ class StandardRequestHandler(ControlRequestHandler):
                     ]
 
                     # If we've received a new setup packet, handle it.
-                    with m.If(setup.received):
-
-                        with m.If(~skiplisted):
-
-                            # Select which standard packet we're going to handler.
-                            with m.Switch(setup.request):
-
-                                with m.Case(USBStandardRequests.GET_STATUS):
-                                    m.next = 'GET_STATUS'
-                                with m.Case(USBStandardRequests.CLEAR_FEATURE):
-                                    m.next = 'CLEAR_FEATURE'
-                                with m.Case(USBStandardRequests.SET_ADDRESS):
-                                    m.next = 'SET_ADDRESS'
-                                with m.Case(USBStandardRequests.SET_CONFIGURATION):
-                                    m.next = 'SET_CONFIGURATION'
-                                with m.Case(USBStandardRequests.GET_DESCRIPTOR):
-                                    m.next = 'GET_DESCRIPTOR'
-                                with m.Case(USBStandardRequests.GET_CONFIGURATION):
-                                    m.next = 'GET_CONFIGURATION'
-                                with m.Default():
-                                    m.next = 'UNHANDLED'
+                    handle_new_setup()
 
 
                 # GET_STATUS -- Fetch the device's status.
@@ -167,6 +184,7 @@ class StandardRequestHandler(ControlRequestHandler):
                     # TODO: handle reporting endpoint stall status
                     # TODO: copy the remote wakeup and bus-powered attributes from bmAttributes of the relevant descriptor?
                     self.handle_simple_data_request(m, transmitter, 0, length=2)
+                    handle_new_setup()
 
                 with m.State('CLEAR_FEATURE'):
                     # Provide an response to the STATUS stage.
@@ -193,22 +211,23 @@ class StandardRequestHandler(ControlRequestHandler):
                         # ... and then return to idle.
                         m.next = 'IDLE'
 
+                    handle_new_setup()
+
                 # SET_ADDRESS -- The host is trying to assign us an address.
                 with m.State('SET_ADDRESS'):
                     self.handle_register_write_request(m, interface.new_address, interface.address_changed)
+                    handle_new_setup()
 
 
                 # SET_CONFIGURATION -- The host is trying to select an active configuration.
                 with m.State('SET_CONFIGURATION'):
                     # TODO: stall if we don't have a relevant configuration
                     self.handle_register_write_request(m, interface.new_config, interface.config_changed)
+                    handle_new_setup()
 
 
                 # GET_DESCRIPTOR -- The host is asking for a USB descriptor -- for us to "self describe".
                 with m.State('GET_DESCRIPTOR'):
-                    # Keep track of whether we've sent a packet we're expecting an ACK to.
-                    expecting_ack = Signal()
-
                     m.d.comb += [
                         get_descriptor_handler.tx  .attach(tx),
                         handshake_generator.stall  .eq(get_descriptor_handler.stall)
@@ -250,9 +269,12 @@ class StandardRequestHandler(ControlRequestHandler):
                         m.d.usb += expecting_ack.eq(0)
                         m.next = 'IDLE'
 
+                    handle_new_setup()
+
                 # GET_CONFIGURATION -- The host is asking for the active configuration number.
                 with m.State('GET_CONFIGURATION'):
                     self.handle_simple_data_request(m, transmitter, interface.active_config)
+                    handle_new_setup()
 
 
                 # UNHANDLED -- we've received a request we're not prepared to handle
@@ -263,5 +285,7 @@ class StandardRequestHandler(ControlRequestHandler):
                     with m.If(interface.data_requested | interface.status_requested):
                         m.d.comb += handshake_generator.stall.eq(1)
                         m.next = 'IDLE'
+
+                    handle_new_setup()
 
         return m
